@@ -67,6 +67,9 @@ func c16GenFilterCase(rng interface {
 		c.Senders = append(c.Senders, c16SenderPool[perm[i]])
 	}
 	nk := 1 + rng.Intn(24)
+	if nk > ns*12 {
+		nk = ns * 12
+	}
 	used := map[[2]int]bool{}
 	for len(c.Keys) < nk {
 		k := [2]int{rng.Intn(ns), rng.Intn(12)}
@@ -154,7 +157,7 @@ func c16RunFilter(r *verifkit.Run, c c16FilterCase, desc string) (dupKeys, concu
 
 func c16FilterWorkload(r *verifkit.Run, repeats int) {
 	r.SetRule("1-24 distinct (sender, seqno) pairs over 1-4 senders (ids include dashes, digits and the empty string), 1-5 copies each, shuffled and dealt to 2-8 goroutines that call the filtered handler concurrently from a common barrier; oracle: delegate invocations per pair <= 1 (and >= 1). non-trivial = some pair had >= 2 copies handled by different goroutines")
-	n := r.N(300, 10000)
+	n := r.N(300, 5000)
 	var dups, conc int64
 	for i := 0; i < n; i++ {
 		c := c16GenFilterCase(r.SubRand("filter", i))
@@ -184,5 +187,5 @@ func TestVerif_C16_FilterRace(t *testing.T) {
 	r := verifkit.Start(t, "C16", "filter-race")
 	defer r.Finish()
 	r.Assume("race pass: each copy is a separate object marked by the delegate on the calling goroutine; no monitor synchronisation between filtering goroutines")
-	c16FilterWorkload(r, r.N(3, 10))
+	c16FilterWorkload(r, r.N(3, 5))
 }
